@@ -35,7 +35,7 @@ Fillers == {
     "S$ < \"b\"", "1 < S$", "#1", "7 MOD .4", "7 MOD 0", ".4", "1 / .0000001", "2 ^ 2", "1 \\ 2", "N% AND",
     "Arr(1 TO 2)", "1 TO", "(1 TO 2)", "N% * 99999", "32767 + N%", "8", "80", "25", "F$", "A", "Z", "X",
     "Qq", "Pq%", "\"T.TXT\"", "\"##\"", "", " ", ":", "'", ",", ";", "=", "1 TO 2", "-", "- -1", "(N%",
-    "N%)", "\"abc\"+Chr$(200)", "Chr$(200)+\"abcd\"", "String$(5,200)", "\"aé\"", "Pa() AS MyType", "Pr AS MyType", "Pi() AS INTEGER", "Ps$()", "Pn AS LONG", "Pu AS Undef", "Pq%()", "#99999999999", "#256", "#0", "#-1", "#1.5", "#N%", "#", "#Arr(1)", "#Rec.X", "#(1)", "#1 + 1", "#MyConst", "#S$", "#D#", "(Arr())", "ArrS$()", "RecArr()", "Arr(1)()", "FxArr()", "(FxArr())", "FxArr(1)", "My.Const", "My.Const%", "MY.CONST", "My.Const.X", "VARPTR", "VARSEG", "LEN", "MID$", "CHR$", "EOF", "PEEK", "INSTR", "UBOUND", "CVD", "MKD$", "VAL", "STR$", "VARPTR()", "LEN()",
+    "N%)", "\"abc\"+Chr$(200)", "Chr$(200)+\"abcd\"", "String$(5,200)", "\"aé\"", "Pa() AS MyType", "Pr AS MyType", "Pi() AS INTEGER", "Ps$()", "Pn AS LONG", "Pu AS Undef", "Pq%()", "#99999999999", "#256", "#0", "#-1", "#1.5", "#N%", "#", "#Arr(1)", "#Rec.X", "#(1)", "#1 + 1", "#MyConst", "#S$", "#D#", "c", "x", "z", "-5", "32768", "(Arr())", "ArrS$()", "RecArr()", "Arr(1)()", "FxArr()", "(FxArr())", "FxArr(1)", "My.Const", "My.Const%", "MY.CONST", "My.Const.X", "VARPTR", "VARSEG", "LEN", "MID$", "CHR$", "EOF", "PEEK", "INSTR", "UBOUND", "CVD", "MKD$", "VAL", "STR$", "VARPTR()", "LEN()",
     "Qf", "Qf%", "Qf!", "Qg", "Qg$", "QQ", "A.B$", "Rec.X%", "Undef.X$", "Rec.S$", "&O8", "&o17", "2#" }
 
 Core == {
@@ -53,7 +53,8 @@ OneSlot == {
     "open-len", "open-num", "close", "get", "input-file", "line-input-file", "kill", "environ", "def-seg",
     "exit", "byref-arg", "byref-fn-arg", "type-member", "fixed-member", "fixed-var", "fixed-lset",
     "using-field", "using-bang", "fixed-input", "arr-arg", "str-arr-arg", "dotted-const-assign", "dotted-const-input", "close-n", "print-n", "input-n", "get-n",
-    "line-input-n", "put-n", "field-n", "print-using-n", "eof-n", "open-as-n" }
+    "line-input-n", "put-n", "field-n", "print-using-n", "eof-n", "open-as-n",
+    "fixed-const-len", "fixed-const-len-type", "fixed-const-len-arr" }
 
 TwoSlot == {
     "assign", "let", "print2", "print-using", "call1", "call-kw", "dim-arr", "dim-as", "redim", "redim-as",
